@@ -107,6 +107,26 @@ impl Config {
         sizes
     }
 
+    /// Same as `cli_args`, but the sample list goes through a samples file (`-S`); returns the
+    /// arguments and the file content (one sample per line, optional tab-separated label).
+    pub fn cli_args_with_samples_file(&self, path_token: &str) -> (Vec<String>, Option<Vec<u8>>) {
+        let mut a = self.cli_args();
+        let Some(list) = &self.sel else { return (a, None) };
+        if let Some(i) = a.iter().position(|x| x == "-s") {
+            a.drain(i..i + 2);
+        }
+        a.insert(0, path_token.to_string());
+        a.insert(0, "-S".to_string());
+        let mut txt = String::new();
+        for (s, l) in list {
+            match l {
+                Some(l) => txt.push_str(&format!("{s}\t{l}\n")),
+                None => txt.push_str(&format!("{s}\n")),
+            }
+        }
+        (a, Some(txt.into_bytes()))
+    }
+
     pub fn cli_args(&self) -> Vec<String> {
         let mut a = vec![];
         if let Some(list) = &self.sel {
